@@ -265,3 +265,81 @@ def q32(x):
     if x is None or (isinstance(x, float) and x != x):
         return x
     return float(np.float32(x))
+
+
+# ----------------------------------------------------------------------------
+# caller-owned memory: the same numbers in another layout / with a caller who looks back
+# ----------------------------------------------------------------------------
+MEM_MODES = ["fresh", "fresh", "fresh", "readonly", "strided", "fortran", "byteswapped", "scribble", "masked"]
+
+
+def in_memory_layout(arr, mode):
+    """The same array contents as the caller might really hold them: read-only, as a strided view of a larger
+    buffer, in Fortran order, in the other byte order, as a masked array without masked items.  "scribble": an own
+    copy that the caller overwrites after the call (see scribble_over)."""
+    arr = np.asarray(arr)
+    if mode == "readonly":
+        out = arr.copy()
+        out.setflags(write=False)
+        return out
+    if mode == "strided":
+        big = np.zeros(arr.shape[:-1] + (2 * arr.shape[-1],) if arr.ndim else (2,), dtype=arr.dtype)
+        if arr.ndim == 0:
+            return arr
+        big[..., ::2] = arr
+        big[..., 1::2] = -777
+        return big[..., ::2]
+    if mode == "fortran":
+        return np.asfortranarray(arr)
+    if mode == "byteswapped":
+        if arr.dtype.kind in "fiu" and arr.dtype.itemsize > 1:
+            return arr.astype(arr.dtype.newbyteorder())
+        return arr
+    if mode == "masked":
+        return np.ma.masked_array(arr.copy(), mask=False)
+    if mode == "scribble":
+        return arr.copy()
+    return arr
+
+
+def scribble_over(arr):
+    """The caller re-uses its buffer for something else after the call."""
+    if isinstance(arr, np.ndarray) and arr.flags.writeable and arr.size:
+        if arr.dtype.kind == "f":
+            arr[...] = -12345.678
+        elif arr.dtype.kind in "iu":
+            arr[...] = 77
+        return True
+    return False
+
+
+def hand_over(ctx, mem, *arrays):
+    """Arrays of one call in the memory layout `mem`; returns (arrays..., held) - held: what the caller may scribble on."""
+    held = []
+    out = []
+    for a in arrays:
+        if mem and mem != "fresh" and isinstance(a, np.ndarray) and a.size:
+            a = in_memory_layout(a, mem)
+            held.append(a)
+        out.append(a)
+    if held:
+        ctx.fault("layout:" + mem)
+    return out, held
+
+
+def scribble_check(ctx, h, held, mem, snap, snap_diff, prop, what):
+    """The caller overwrites the buffers it handed over: nothing the histogram reports may change."""
+    if mem != "scribble" or not held:
+        return
+    pre = snap(h)
+    if not any([scribble_over(a) for a in held]):
+        return
+    d = snap_diff(pre, snap(h))
+    if d:
+        ctx.violation(f"{prop}/callers-array-untouched", f"{prop}/keeps-callers-buffer/{what}",
+                      f"after {what} the caller overwrote the arrays it had passed in and the histogram changed in {d}: "
+                      f"it still refers to the caller's memory")
+
+
+LAYOUT_FAULTS = ["layout:readonly", "layout:strided", "layout:fortran", "layout:byteswapped", "layout:scribble",
+                 "layout:masked"]
